@@ -36,6 +36,7 @@ func checkC01(ctx *Ctx, r *Report) {
 	c01DiscriminatorDistinct(ctx, r)
 	c01MapOnlyWithoutProperties(ctx, r)
 	c01GoFieldTypeOverride(ctx, r)
+	c01StrictEmptyList(ctx, r)
 	c01LoopLocalResult(ctx, r)
 }
 
@@ -1718,4 +1719,46 @@ func c11ThirdRound(ctx *Ctx, r *Report) {
 	}
 	r.Count("branch tests of the Go union marshaller", k)
 	r.Floor("branch tests of the Go union marshaller", 1)
+}
+
+// c01StrictEmptyList: the strict decoder decodes a list of non-scalar elements element by element and appends each to
+// the target. For an empty list the loop does not run: unless the target is set to an empty (non-nil) list outside the
+// loop it stays nil and is re-encoded as `null` — the document `{"items": []}` does not round-trip (and `null` is not
+// accepted by the source schema for a required list).
+func c01StrictEmptyList(ctx *Ctx, r *Report) {
+	ts, err := loadTemplates(ctx, "golang")
+	if err != nil {
+		r.Undecided("cannot parse golang templates: %v", err)
+		return
+	}
+	tree := ts.trees[recStrict.define]
+	if tree == nil {
+		r.Undecided("anchor lost: template %q", recStrict.define)
+		return
+	}
+	txt := tmplText(tree.Root)
+	i := strings.Index(txt, "partialArray :=")
+	if i < 0 {
+		r.Undecided("anchor lost: the element-wise list branch of %q", recStrict.define)
+		return
+	}
+	rest := txt[i:]
+	j := strings.Index(rest, "partialMap :=")
+	if j > 0 {
+		rest = rest[:j]
+	}
+	loop := strings.Index(rest, "for i")
+	r.Count("element-wise list branches of the strict decoder", 1)
+	assignedOutside := false
+	for _, m := range regexp.MustCompile(`⟦\s*\.UnmarshalInto\s*⟧\s*=`).FindAllStringIndex(rest, -1) {
+		if loop < 0 || m[0] < loop {
+			assignedOutside = true
+		}
+	}
+	// … or after the loop's closing brace under an emptiness test
+	if !assignedOutside && strings.Contains(rest, "len(partialArray) == 0") {
+		assignedOutside = true
+	}
+	r.Check(assignedOutside, "skeleton/strict-empty-list", "strict decoder list branch initialises the target", token.NoPos, "the target is set to an empty list outside the per-element loop",
+		ts.file[recStrict.define]+": a list of objects is only built by appending inside the per-element loop: for `[]` the target stays nil and is re-encoded as null — {\"items\": []} does not round-trip through UnmarshalJSONStrict (the standard decoder gives [])")
 }
